@@ -415,10 +415,12 @@ def simple_tree():
     files = [dict(type="file", name=b"f%02d" % i, data=(b"%d" % i) * (50 * i), frag=True, mode=0o644, uid=i % 3, gid=7) for i in range(1, 6)]
     big = dict(type="file", name=b"big", data=bytes(range(256)) * 40 + b"tail", frag=True, xattrs={b"user.k": b"v", b"trusted.long": b"L" * 40})
     sparse = dict(type="file", name=b"sparse", data=b"\0" * 8192 + b"x" * 100, frag=False)
+    # shorter than a block but stored as a data block of its own (what -T / dont_fragment produce)
+    smallblk = dict(type="file", name=b"smallblk", data=b"short file in a block of its own " * 9, frag=False)
     sub = dict(type="dir", name=b"sub", children=[dict(type="slink", name=b"lnk", target=b"../big"), dict(type="chr", name=b"c", devno=0x0105),
                                                  dict(type="blk", name=b"b", devno=0x0800), dict(type="fifo", name=b"p"), dict(type="sock", name=b"s"),
                                                  dict(type="file", name=b"hl", data=b"hardlinked", id="hl", nlink=2, frag=True)],
                xattrs={b"security.x": b"L" * 40}, index=True, ext=True)
-    root = dict(type="dir", name=b"", children=files + [big, sparse, sub, dict(type="dir", name=b"empty", children=[]),
+    root = dict(type="dir", name=b"", children=files + [big, sparse, smallblk, sub, dict(type="dir", name=b"empty", children=[]),
                                                        dict(name=b"hl2", link_to="hl", type="file")], mode=0o755)
     return root
